@@ -170,6 +170,8 @@ class Gen:
             return progs.typed_twin(r, "sel")
         if r.random() < 0.06:
             return progs.literal_twin(r, "f")
+        if r.random() < 0.05:
+            return progs.boundary_literal(r, "f")
         p = r.choice(src_pool)
         return p["src"], p
 
@@ -621,7 +623,9 @@ class Gen:
         """user-defined types: a function returning one, a caller that never names it, a program that
         names it and is compiled with or (F1) without types=[...]"""
         r = self.r
-        w = r.choice([9, 10, 11])
+        if r.random() < 0.25:
+            return self.custom_fixed(s)
+        w = r.choice([9, 10, 11, 10, 14, 5, 7])
         pick, differ, probe = self.custom_ops(w, with_types=r.random() < 0.5)
         pid = None
         if r.random() < 0.8:
@@ -634,6 +638,17 @@ class Gen:
         if r.random() < 0.8:
             self.add("compile_callable", probe, [], s, "qf" if probe["types"] else "none", {"id": "custom", "nargs": 1, "in_bits": w, "ret_bool": True, "argsig": None, "retsig": "bool", "compiled": True}, "probe")
             self.note_name("probe", probe["src"])
+        return True
+
+    def custom_fixed(self, s):
+        """a user-defined fixed-point type (class Qfixed1_5(QfixedImp) in the user's module) and a function over it"""
+        r = self.r
+        i, f = r.choice([(1, 5), (3, 2), (2, 5), (1, 7)])
+        tn = f"Qfixed{i}_{f}"
+        a = {"opt": "default", "uncompute": True, "to_compile": True, "defs": [], "via": "plain", "defines": [tn], "types": [tn],
+             "src": f"def fx(a: Qfixed[{i}, {f}], b: Qfixed[{i}, {f}]) -> bool:\n    return a == b\n"}
+        self.add("compile_callable", a, [], s, "qf", {"id": "custom", "nargs": 2, "in_bits": 2 * (i + f), "ret_bool": True, "argsig": None, "retsig": "bool", "compiled": True}, "fx")
+        self.note_name("fx", a["src"])
         return True
 
     def b_param_churn(self, s):
@@ -970,6 +985,13 @@ def make_canaries(batch_seed, tier):
         if key not in seen:
             seen.add(key)
             out.append({"ops": ops_, "key": key})
+    # literals at the edges of the ranges from which the front end infers a constant's type
+    for tmpl in progs.BOUNDARY[:7]:
+        ops_ = [cs(0, tmpl.format(n="lim"))]
+        key = digest([{k: x for k, x in o.items() if k not in ("rk", "meta", "name")} for o in ops_], 16)
+        if key not in seen:
+            seen.add(key)
+            out.append({"ops": ops_, "key": key})
     gc_ = Gen(int(digest(["canary-custom", batch_seed], 15), 16), tier)
     for w in (9, 10, 11):
         pick, differ, probe = gc_.custom_ops(w, with_types=False)
@@ -1103,7 +1125,11 @@ def _compile_callable(op, a, objs, tmpdir):
     hdr = "from __future__ import annotations\nfrom qlasskit import *\nfrom typing import Tuple, List\n"
     # user-defined types live in the user's module, as in test/utils.py (class Qint14(QintImp): BIT_SIZE = 14)
     for tn in a.get("defines", []):
-        hdr += f"from qlasskit.types.qint import QintImp\nclass {tn}(QintImp):\n    BIT_SIZE = {int(tn[4:])}\n"
+        if tn.startswith("Qfixed"):
+            i_, f_ = tn[6:].split("_")
+            hdr += f"from qlasskit.types.qfixed import QfixedImp\nclass {tn}(QfixedImp):\n    BIT_SIZE = {int(i_) + int(f_)}\n    BIT_SIZE_INTEGER = {int(i_)}\n    BIT_SIZE_FRACTIONAL = {int(f_)}\n"
+        else:
+            hdr += f"from qlasskit.types.qint import QintImp\nclass {tn}(QintImp):\n    BIT_SIZE = {int(tn[4:])}\n"
     tlist = "[" + ", ".join(a.get("types", [])) + "]"
     if a["via"] == "deco":
         text = hdr + "@qlassf\n" + a["src"]
